@@ -223,8 +223,8 @@ def n(tier, q, t):
 
 def C01(rep):
     chan_mc(rep, rep.tier, kinds=("q", "rv", "os", "bc"))
-    chan_seq(rep, ALL_PLUS, n(rep.tier, 18, 400), 60, [1, 2, 3, 5], ["mix", "batch", "async"], label="chan-seq")
-    chan_sched(rep, ALL_PLUS, n(rep.tier, 40, 1500), [1, 2], seed_off=11)
+    chan_seq(rep, ALL_PLUS, n(rep.tier, 24, 400), 60, [1, 2, 3, 5], ["mix", "batch", "async"], label="chan-seq")
+    chan_sched(rep, ALL_PLUS, n(rep.tier, 60, 1500), [1, 2], seed_off=11)
     # batch senders racing for runs of slots at the edge of the window (overshoot / tombstone paths)
     chan_sched(rep, BATCH_MP, n(rep.tier, 60, 1500), [1, 2, 3], shapes=("batchrace",), strategies=("pct", "random", "pct5"),
                seed_off=12, label="chan-sched-batchrace")
@@ -239,13 +239,13 @@ def C01(rep):
 def C05(rep):
     chan_mc(rep, rep.tier)
     sync = [f for f in ALL_CHAN if not f.endswith("_async") and f != "oneshot"]
-    chan_sched(rep, sync, n(rep.tier, 240, 6000), [1, 2, 3], strategies=("random", "pct", "pct5"), seed_off=606,
+    chan_sched(rep, sync, n(rep.tier, 300, 6000), [1, 2, 3], strategies=("random", "pct", "pct5"), seed_off=606,
                label="chan-sched-sync")
     chan_sched(rep, sync, n(rep.tier, 160, 4000), [1], strategies=("pct5", "random", "pct"), seed_off=707,
                label="chan-sched-cap1")
     # consumers that take a quota and then either leave or keep their handle and wait for the producers:
     # progress of a parked sender must not depend on further receives
-    chan_sched(rep, sync, n(rep.tier, 60, 3000), [2, 1, 3], shapes=("hold",), strategies=("pct", "random", "pct5"),
+    chan_sched(rep, sync, n(rep.tier, 90, 3000), [2, 1, 3], shapes=("hold",), strategies=("pct", "random", "pct5"),
                seed_off=808, label="chan-sched-hold")
     # systematic PCT space of the smallest contended scenario (two producers, one item each, one consumer)
     t = rep.tier
@@ -273,10 +273,10 @@ def C02(rep):
 
 def C03(rep):
     chan_mc(rep, rep.tier)
-    chan_seq(rep, BOUNDED, n(rep.tier, 16, 400), 70, [1, 2, 3, 4], ["mix", "batch"], seed_off=202, label="chan-seq-bounded")
-    chan_sched(rep, BOUNDED, n(rep.tier, 36, 2000), [1, 2, 3], shapes=("prefill", "drain"), seed_off=22)
+    chan_seq(rep, BOUNDED, n(rep.tier, 24, 400), 70, [1, 2, 3, 4], ["mix", "batch"], seed_off=202, label="chan-seq-bounded")
+    chan_sched(rep, BOUNDED, n(rep.tier, 60, 2000), [1, 2, 3], shapes=("prefill", "drain"), seed_off=22)
     # more parked receivers / pending futures than capacity, non-power-of-two capacities first
-    chan_seq(rep, [f for f in BOUNDED if f.endswith("_async")], n(rep.tier, 8, 300), 60, [3, 1, 5, 2], ["parked"],
+    chan_seq(rep, [f for f in BOUNDED if f.endswith("_async")], n(rep.tier, 12, 300), 60, [3, 1, 5, 2], ["parked"],
              seed_off=203, label="chan-seq-parked")
     chan_sched(rep, ["mpmc_b", "mpmc_b_async", "mpmc_rv", "mpmc_rv_async"], n(rep.tier, 45, 1500), [3, 1, 2],
                shapes=("manyrx",), strategies=("pct", "random", "pct5"), seed_off=23, label="chan-sched-manyrx")
@@ -291,8 +291,8 @@ def C03(rep):
 
 def C04(rep):
     chan_mc(rep, rep.tier)
-    chan_seq(rep, ALL_PLUS, n(rep.tier, 30, 600), 50, [1, 2, 5], ["close", "teardown", "life"], seed_off=303, label="chan-seq-close")
-    chan_sched(rep, ALL_PLUS, n(rep.tier, 40, 1500), [1, 2], shapes=("leave", "drain"), seed_off=33)
+    chan_seq(rep, ALL_PLUS, n(rep.tier, 40, 600), 50, [1, 2, 5], ["close", "teardown", "life"], seed_off=303, label="chan-seq-close")
+    chan_sched(rep, ALL_PLUS, n(rep.tier, 60, 1500), [1, 2], shapes=("leave", "drain"), seed_off=33)
     add_mc(rep, mc_cached("topic", "MC_TopicA", "MC_TopicA_quick.cfg", ["TopicA.tla"], timeout=1800))
     topic_part(rep, n(rep.tier, 60, 1000), seed_off=3434)
     topic_part(rep, n(rep.tier, 300, 4000), seed_off=3535, mode="topic-thr")
@@ -306,9 +306,9 @@ def C04(rep):
 
 def C06(rep):
     chan_mc(rep, rep.tier)
-    chan_seq(rep, ASYNC, n(rep.tier, 36, 600), 70, [1, 2, 3], ["async"], seed_off=404, label="chan-seq-async")
-    chan_sched(rep, ASYNC, n(rep.tier, 60, 2000), [1, 2], seed_off=44, label="chan-sched-async")
-    chan_seq(rep, [f for f in ASYNC if f != "oneshot"], n(rep.tier, 36, 600), 70, [3, 1, 2], ["parked"], seed_off=405,
+    chan_seq(rep, ASYNC, n(rep.tier, 48, 600), 70, [1, 2, 3], ["async"], seed_off=404, label="chan-seq-async")
+    chan_sched(rep, ASYNC, n(rep.tier, 90, 2000), [1, 2], seed_off=44, label="chan-sched-async")
+    chan_seq(rep, [f for f in ASYNC if f != "oneshot"] + ["spmc_b_async"], n(rep.tier, 48, 600), 70, [3, 1, 2], ["parked"], seed_off=405,
              label="chan-seq-parked")
     t = rep.tier
     chan_sys(rep, ["mpsc_b_async", "mpmc_b_async", "mpsc_rv_async", "mpmc_rv_async", "mpmc_u_async", "mpsc_u_async",
@@ -318,9 +318,9 @@ def C06(rep):
 
 def C09(rep):
     chan_mc(rep, rep.tier)
-    chan_seq(rep, ALL_PLUS, n(rep.tier, 32, 500), 50, [1, 2, 5], ["teardown", "batch", "async", "life"], seed_off=505,
+    chan_seq(rep, ALL_PLUS, n(rep.tier, 40, 500), 50, [1, 2, 5], ["teardown", "batch", "async", "life"], seed_off=505,
              label="chan-seq-teardown")
-    chan_sched(rep, ALL_PLUS, n(rep.tier, 30, 1000), [1, 2], shapes=("leave",), seed_off=55)
+    chan_sched(rep, ALL_PLUS, n(rep.tier, 45, 1000), [1, 2], shapes=("leave",), seed_off=55)
     t = rep.tier
     chan_sys(rep, ["mpsc_b", "mpmc_b", "mpmc_rv", "mpsc_u"] + ([] if t == "quick" else ["mpmc_u", "mpsc_rv", "spsc_b", "spsc_rv"]),
              3, 8, shapes=("leave",), seeds=n(t, (3, 4), (3, 4, 5, 6)), items=2, label="chan-sys-teardown")
